@@ -1148,7 +1148,7 @@ class C17(Check):
                 last_warn = e[1]
             elif e[0] == "prompt":
                 if op["kind"] == "cli_fig" and last_warn is None and (
-                        "overwrite original file" in str(e[1])):
+                        FIG_IN in str(e[1])):
                     # evo_fig's closing question names the file it is about
                     # itself: the plot collection that was opened
                     last_warn = FIG_IN
